@@ -43,7 +43,9 @@ def gate_sets(idx: Index) -> Dict[str, frozenset]:
             raise AnalysisError(f"{GATE}: table {nm} not found")
         v = const_str_set(gm.assigned[nm])
         if v is None:
-            raise AnalysisError(f"{GATE}: table {nm} is not a literal set")
+            v = cs.module_str_set(idx, GATE, nm)          # a table computed from the other tables
+        if v is None:
+            raise AnalysisError(f"{GATE}: table {nm} is neither a literal set of names nor an expression over such sets")
         out[nm] = v
     return out
 
